@@ -64,7 +64,7 @@ def run(ctx):
     # 0. design level (AlpenglowAbs + leaders + asynchronous prefix, then timely network): progress for EVERY schedule
     run_progress_mc(ctx, "prog6_silent", [1] * 6, [5], [1], False, 4, 2, 5,
                     witnesses=["W_Judged", "W_GoalReached", "W_SkippedWindow"])
-    run_progress_mc(ctx, "prog6_noisy", [1] * 6, [5], [1], True, 2, 2, 5)
+    run_progress_mc(ctx, "prog6_noisy", [1] * 6, [5], [1], True, 1, 2, 5)
     if ctx.tier == "thorough":
         run_progress_mc(ctx, "prog6_noisy5", [1] * 6, [5], [1], True, 5, 2, 5, timeout=3000)
         run_progress_mc(ctx, "prog6_silent7", [1] * 6, [0], [3], False, 7, 2, 5, timeout=3000)
